@@ -27,6 +27,14 @@ CFG = {
             "ill-formed strings; wrong / unknown / garbage / non-ASCII / missing content types for JSON, url-encoded "
             "and multipart endpoints (missing boundary, unterminated quote, not multipart); requests refused in front "
             "of the extractors (router: variable omitted; HTTP parser: raw space / control byte in the target). "
+            "A deterministic large-scope slice (group large, tags large:<dimension>:<size>) with ONE fault placed very late: the "
+            "17th / 257th / 1025th element of a typed wildcard, the byte after 15 .. 8193 leading zeros of a number, the value "
+            "after up to 4097 unknown query parameters, a duplicate as the 18th / 34th known parameter, the last of 308 JSON "
+            "fields, the 18th / 258th / 4098th array element, an ill-typed member / trailing garbage / truncation after 4 097 "
+            "and 40 000 bytes of valid JSON, 400-digit and 1e400 numbers; judged by the same model and spec. Beyond the Coq "
+            "VM's reach (64 KiB, thorough 1 MiB of valid JSON before the fault; request targets of 65 540 bytes and more, "
+            "which the HTTP parser answers 414) the specification alone is evaluated (CNoModel: 4xx, not entered, server "
+            "alive). "
             "Observables: a response must arrive, status in 4xx (never 5xx), error body = {request_id, message, "
             "optional error_code}, the endpoint's handler-entered counter (server private context) unchanged, and the "
             "server still answers on the same (or a fresh) connection. Judge: spec as just stated; model = Extract.v "
